@@ -4,17 +4,27 @@ CHECK = {
         "the reference name authoriser (harness/pki/c15_model_test.go) is the most permissive reading of the role documentation (docs/api/secret/pki.mdx, Create/Update role): a name it rejects is authorised by no documented switch",
         "wall-clock tolerance: 2 s around each request plus the documented 30 s default backdate",
         "golang.org/x/net/idna and crypto/x509 parsing are trusted",
+        "issuer-schedules unit: requests are interleaved at the granularity of physical storage operations (verifx.Sched, scheduling points before and after each operation); the issuer configuration in force after concurrent acknowledged updates is any value reachable by some linearisation of them (PATCH changes only the fields it names)",
     ],
     "units": [
-        unit("issue", "pki", ["pki/cx_common_test.go", "pki/c15_model_test.go", "pki/c15_issue_test.go"], "^TestVerif_C15_",
+        unit("issue", "pki", ["pki/cx_common_test.go", "pki/c15_model_test.go", "pki/c15_issue_test.go", "pki/c15_schedules_test.go"], "^TestVerif_C15_Issue$",
              quick={"checks": 1500, "shards": 1, "cap": 600},
              thorough={"checks": 25000, "shards": 16, "cap": 1500},
              floors={"issue": {"issued": 0.05, "refused": 0.05, "nontrivial": 0.05, "role-patches": 0.05,
                                "role-patches-on-cidr-role-not-naming-the-cidrs": 0.02, "request-ip-san-outside-role-cidrs": 0.005,
-                               "ttl-limited:in-clamp-window:refused": 0.003}},
+                               "ttl-limited:in-clamp-window:refused": 0.003,
+                               "request-other-san-outside-role-among-admitted-ones": 0.01, "request-with-several-other-sans": 0.03}},
              # serial numbers and generated keys come from crypto/rand and the seen-serial set lives as long as the
              # memoised mount, so a serial collision need not recur when rapid re-runs the case; every verdict is a
              # deterministic fact about the certificate actually returned, so it still counts.
+             flaky_is_violation=True),
+        unit("issuer-schedules", "pki", ["pki/cx_common_test.go", "pki/c15_model_test.go", "pki/c15_issue_test.go", "pki/c15_schedules_test.go"], "^TestVerif_C15_IssuerSchedules$",
+             quick={"checks": 100, "shards": 1, "cap": 600},
+             thorough={"checks": 300, "shards": 16, "cap": 1500},
+             floors={"issuer-schedules": {"interleaved-updates-one-naming-the-behaviour-one-not": 0.15}},
+             # issuer ids are random and the code lists issuers in map order, so the k-th storage operation of a request
+             # need not be the same operation when rapid re-runs a case; every verdict is a fact about a certificate
+             # actually returned after acknowledged requests, so an unreproduced failure still counts.
              flaky_is_violation=True),
     ],
 }
